@@ -16,7 +16,7 @@ from typing_extensions import Literal
 
 from spil.sid.sid import Sid
 from spil.sid.read.util import first
-from spil.sid.read.tools import unfold_search
+from spil.sid.read.tools import unfold_search, is_alias_search
 
 
 class Finder:
@@ -79,7 +79,7 @@ class Finder:
         """
         # shortcut if Sid is not a search
         sid = Sid(search_sid)
-        if sid and not sid.is_search():
+        if sid and not sid.is_search() and not is_alias_search(sid):
             generator = self.do_find([sid], as_sid=as_sid)
         else:
             search_sids = unfold_search(search_sid)
